@@ -138,9 +138,9 @@ def parameterRange (st : Index) (f : Path) (line endLine : Nat) (param : String)
     | some u => some (spanLoc f (toLsp u.line) u.startChar u.endChar)
     | none => none
 
-/-- `callHierarchy/outgoingCalls`: every dependency, resolved by `resolve_fixture_for_file` — except
-    the fixture's own name (an override requesting its parent), which is resolved like the usage on
-    its signature: `find_closest_definition_excluding` the fixture itself. -/
+/-- `callHierarchy/outgoingCalls`: every dependency resolved by `find_closest_definition` (since
+    d2ce617; before: `resolve_fixture_for_file`), the fixture's own name (an override requesting its
+    parent) by `find_closest_definition_excluding` the fixture itself. -/
 def hOutgoingCalls (st : Index) (f : Path) (name : String) : Option (List (CallItem × Loc)) × Index :=
   match (defsOf st.defs name).find? (fun d => d.file == f) with
   | none => (none, st)
@@ -148,7 +148,7 @@ def hOutgoingCalls (st : Index) (f : Path) (name : String) : Option (List (CallI
     let (items, st) := d.deps.foldl (fun (acc : List (CallItem × Loc) × Index) dep =>
       let (r, st') :=
         if dep == d.name then resolveFM acc.2.defs impM f dep (fun x => x != d) acc.2
-        else (resolveForFile acc.2.defs f dep, acc.2)
+        else resolveFM acc.2.defs impM f dep (fun _ => true) acc.2
       match r with
       | none => (acc.1, st')
       | some dd =>
